@@ -123,8 +123,11 @@ def run(chk):
         g = np.array(gsym[:n], dtype=object)
         if n < 4:
             betas = bsym[:n]
-            E = f(g, a1, a0, betas)
-            ode_obligations(f"C07.generic.{fname}", E, gsym, betas, n, fn, ode_replay((n, 0), 4), lambda: f(g, a0, a0, betas))
+            req = [a0 > 0, a1 > 0, betas[0] > 0]
+            rpn = ode_replay((n, 0), 6 if n == 3 else 4)
+            for tag, pc, E in chk.run_paths(f"C07.generic.{fname}", lambda: f(g, a1, a0, betas), req, fn=fn, replay=rpn):
+                for tag0, pc0, E0 in chk.run_paths(tag + ".at_a0", lambda: f(g, a0, a0, betas), req + list(pc), fn=fn, replay=rpn):
+                    ode_obligations(tag if tag0.endswith(".at_a0") else tag0, E, gsym, betas, n, fn, rpn, lambda E0=E0: E0)
         else:
             # roots replaced by its contract (Vieta parametrisation of the b's by the roots)
             r = [T.var("r1"), T.var("r2"), T.var("r3")]
